@@ -26,6 +26,8 @@ PANIC_CALLEES = [
     (re.compile(r"^core::time::Duration::(from_secs_f64|from_secs_f32|new)$"), "duration"),
     (re.compile(r"^<core::time::Duration as core::ops::arith::(Add|Sub|Mul).*>::(add|sub|mul)$"), "duration"),
     (re.compile(r"^std::time::.*(Add|Sub).*::(add|sub)$"), "time_arith"),
+    # the `time` crate: date-time arithmetic panics when the result leaves the representable range (year 9999 without `large-dates`)
+    (re.compile(r"^<time::.* as core::ops::arith::(Add|Sub|AddAssign|SubAssign|Mul|Div)<.*>>::(add|sub|add_assign|sub_assign|mul|div)$"), "time_arith"),
     (re.compile(r"^alloc::sync::Arc::<.*>::(get_mut_unchecked)$"), "unsafe"),
     (re.compile(r"^core::char::(from_digit|from_u32_unchecked)$"), "char"),
     (re.compile(r"^core::iter::traits::iterator::Iterator::step_by$"), "step_by"),
